@@ -12,6 +12,6 @@ VFixed  == [bust |-> "owned", loop |-> "ignored", consume |-> "purge"]
 VFixAB  == [bust |-> "owned", loop |-> "ignored", consume |-> "ignore"]
 VFixA   == [bust |-> "owned", loop |-> "split", consume |-> "ignore"]
 MenuAny == {NoScript}
-PropsAll == {"C01", "C02", "C03", "C04", "C05", "C06", "C08", "C10", "C11", "C12", "C13", "C14", "C16"}
+PropsAll == {"C09", "C01", "C02", "C03", "C04", "C05", "C06", "C08", "C10", "C11", "C12", "C13", "C14", "C15", "C16"}
 VPurge == [bust |-> "owned", loop |-> "ignored", consume |-> "purge"]
 =============================================================================
